@@ -1,7 +1,10 @@
 //! This module contains the definition of the virtual machine's storage
 //! container.
 
+#[cfg(not(smlxl_storage_layout_extractor_verif))]
 use std::collections::HashMap;
+#[cfg(smlxl_storage_layout_extractor_verif)]
+use crate::verif::collections::HashMap;
 
 use crate::vm::value::{Provenance, RuntimeBoxedVal, RSV, RSVD};
 
